@@ -219,6 +219,19 @@ Definition route (c : cfg) (p : point) : option (group * shard) :=
 (* shardKeyAndValue[len(mst.Name)+1:] *)
 Definition after_name (c : cfg) (key : str) : str := skipn (S (length (c_mst c))) key.
 
+(* write_helper.go createShardGroup: the group of the previous row of the batch is reused when its span contains the
+   timestamp (only the span is looked at), otherwise the catalogue is consulted *)
+Definition pick_group (cache : option group) (gs : list group) (t : Z) : option group :=
+  match cache with
+  | Some g => if g_contains g t then Some g else find_group gs t
+  | None => find_group gs t
+  end.
+Definition route_cached (cache : option group) (c : cfg) (p : point) : option (group * shard) :=
+  match pick_group cache (c_groups c) (p_time p) with
+  | None => None
+  | Some g => match route_in c g p with Some s => Some (g, s) | None => None end
+  end.
+
 (* the loop of TargetShards over the tag sets; None = "return every alive shard" *)
 Fixpoint tloop (v : variant) (c : cfg) (g : group) (acc : str) (tss : list tagset) : option (list shard) :=
   match tss with
